@@ -6,3 +6,4 @@ import JaxVerif.Properties.C10
 #print axioms JV.C10_import_position
 #print axioms JV.C10_positions
 #print axioms JV.C10_generated_good
+#print axioms JV.C10_source_visitors
